@@ -124,7 +124,18 @@ def _scenario(rng):
     variables with a dimension of their own; (b) masked variables carrying packing attributes through operations that
     store derived arrays (eval, reorderDimensions, file arithmetic, legacy slice_dim); (c) IOAPI files constructed with
     their own TFLAG (from_arrays(..., TFLAG=...), hand-built + updatemeta) and what is derived from them"""
-    k = rng.choice(['getvar', 'getvar', 'packed', 'packed', 'ioapi_tflag', 'evalshape', 'ioapi_addvar', 'maskshare', 'subsetcoords'])
+    k = rng.choice(['getvar', 'getvar', 'packed', 'packed', 'ioapi_tflag', 'evalshape', 'ioapi_addvar', 'maskshare', 'subsetcoords',
+                    'ndpoints', 'ioapi_scalar'])
+    if k == 'ndpoints':
+        # the documented N-D form of the pointwise selection: index arrays of one 2-D shape, as many new dimension names
+        ny, nx = rng.randint(2, 4), rng.randint(2, 5)
+        p, q = rng.randint(1, 3), rng.randint(2, 3)
+        return dict(family='scenario', kind=k, nt=rng.randint(1, 3), ny=ny, nx=nx,
+                    iy=[[rng.randrange(ny) for _ in range(q)] for _ in range(p)], ix=[[rng.randrange(nx) for _ in range(q)] for _ in range(p)])
+    if k == 'ioapi_scalar':
+        # a scalar computed from global attributes in an IOAPI file (no variable lends its dimensions), new file or in place
+        return dict(family='scenario', kind=k, nt=rng.randint(1, 2), nz=rng.randint(1, 2), ny=rng.randint(1, 3), nx=rng.randint(1, 3),
+                    inplace=rng.random() < 0.5, then=rng.choice(['copy', 'none', 'slice']))
     if k == 'subsetcoords':
         # subsetVariables on a file whose list of coordinate names is ahead of (or behind) its variables: a coordinate
         # variable was renamed, a name was registered before the variable exists; the names given as a list or a tuple
@@ -179,7 +190,35 @@ def _impl_scenario(c):
         states.append(st)
     with lib.pnc_warnings(), np.errstate(all='ignore'):
         try:
-            if c['kind'] == 'subsetcoords':
+            if c['kind'] == 'ndpoints':
+                f = pnc.PseudoNetCDFFile()
+                for dk, n in (('time', c['nt']), ('y', c['ny']), ('x', c['nx'])):
+                    f.createDimension(dk, n)
+                a = f.createVariable('A', 'd', ('time', 'y', 'x'))
+                a[:] = np.arange(a.size, dtype='d').reshape(a.shape)
+                m = f.createVariable('M', 'd', ('y', 'x'), fill_value=-999.)
+                m[:] = np.ma.masked_greater(np.arange(m.size, dtype='d').reshape(m.shape), m.size - 2)
+                rec(f, 'built')
+                g = f.sliceDimensions(newdims=('PA', 'PB'), y=np.array(c['iy']), x=np.array(c['ix']))
+                rec(g, 'sliceDimensions')
+                want = np.arange(a.size, dtype='d').reshape(a.shape)[:, np.array(c['iy']), np.array(c['ix'])]
+                got = np.asarray(g.variables['A'][:])
+                if got.shape != want.shape or not (got == want).all():
+                    states.append(dict(err='Content', msg='A has shape %s, numpy gives %s' % (got.shape, want.shape)))
+            elif c['kind'] == 'ioapi_scalar':
+                from PseudoNetCDF.cmaqfiles._ioapi import ioapi_base
+                nt, nz, ny, nx = c['nt'], c['nz'], c['ny'], c['nx']
+                f = ioapi_base.from_arrays(fileattrs=dict(SDATE=2019001, STIME=0, TSTEP=10000, XCELL=np.float64(1000.), YCELL=np.float64(500.), XORIG=0., YORIG=0.,
+                                                          VGLVLS=np.linspace(1, 0, nz + 1).astype('f'), VGTOP=np.float32(5000)),
+                                           O3=np.arange(nt * nz * ny * nx, dtype='f').reshape(nt, nz, ny, nx))
+                rec(f, 'from_arrays')
+                g = f.eval('AREA = XCELL * YCELL', inplace=c['inplace'])
+                rec(g, 'eval')
+                if c['then'] == 'copy':
+                    rec(g.copy(), 'copy')
+                elif c['then'] == 'slice':
+                    rec(g.sliceDimensions(ROW=0), 'sliceDimensions')
+            elif c['kind'] == 'subsetcoords':
                 f = pnc.PseudoNetCDFFile()
                 f.createDimension('x', c['nx'])
                 f.createDimension('y', c['ny'])
